@@ -14,14 +14,16 @@
 (***************************************************************************)
 EXTENDS Naturals, Sequences, FiniteSets, SequencesExt, TLC
 
-CONSTANTS DecorKinds,     \* decoration kinds enumerated (subset of {"comment","blank","otherlabel","othercr","earlysame"})
+CONSTANTS DecorKinds,     \* decoration kinds enumerated (subset of {"comment","blank","otherlabel","othercr","earlysame","cutunused"})
           NLines,         \* number of distinct valid lines of the connection (labels 1..NLines, secret of label i = i)
           Cases, Eols     \* hex cases (upper?) and line ends (CRLF?) enumerated: BOOLEAN, or {TRUE} in the quick configuration (neither changes a line's kind)
 
 Lines == 1..NLines
 \* a physical line: [kind, lab, upper] ; kinds: "valid" | "comment" | "blank" | "otherlabel" | "othercr" | "dup"
 Valid(l, up) == [kind |-> "valid", lab |-> l, upper |-> up]
-Decor == { [kind |-> k, lab |-> 0, upper |-> FALSE] : k \in {"comment", "blank", "otherlabel", "othercr", "earlysame"} }
+Decor == { [kind |-> k, lab |-> 0, upper |-> FALSE] : k \in {"comment", "blank", "otherlabel", "othercr", "earlysame", "cutunused"} }
+\* "cutunused": like "earlysame", but the value is cut short (odd number of hex digits, no line end): the writer was interrupted in a line TLExport
+\*              does not need -- the reader's pattern accepts any number of hex digits, nothing may decode a value it does not use
 \* "earlysame": a label the connection does not use (0-RTT / exporter secret) WITH ITS OWN client random: accepted, never usable
 
 VARIABLES proto,         \* "tls12" | "tls13" | "quic"
@@ -50,7 +52,7 @@ WithDecor == LET n == Len(DecorSeq)
                 \o SubSeq(Text, 2, Len(Text)) \o [i \in 1..(IF n > 2 THEN n - 2 ELSE 0) |-> D(i + 2)]
 
 \* keylog_reader.get_key_from_line (repaired: hex digits of either case); CR is removed before splitting into lines
-Accepted(line) == line.kind \in {"valid", "otherlabel", "othercr", "earlysame"}
+Accepted(line) == line.kind \in {"valid", "otherlabel", "othercr", "earlysame", "cutunused"}
 \* which accepted lines a connection uses: those with its client random and a label it knows
 Usable(line) == line.kind = "valid"
 
